@@ -36,6 +36,10 @@ CANDIDATES = [
      "find nothing to remove, GetActive then creates the entry and fills it from the old document; later Get/Peek are served the "
      "pre-update channels although the invalidation has completed"),
 ]
+TORN_PEEK_KEY = "tornpeek:Peek(k) overlapping Put/Upsert/Get(k) returns a partially written revision"
+TORN_PEEK_WHAT = ("LRURevisionCache.Peek calls value.asDocumentRevision without value.lock while value.store / value.load write the fields "
+                  "one by one: a Peek overlapping a Put/Upsert/Get of the same key can return found=true with a revision that is neither "
+                  "the bucket's nor any earlier content (e.g. body set, channels/history not yet); timing dependent, the race detector reports it")
 # forced schedules that the unchanged code is expected to survive (strict pass P; a failure is a VIOLATION with this key)
 SCHEDULES = [
     ("FreshAfterInvalidate:Get(k) has read the document || StoreUpdate;Invalidate(k); then Get(k),Peek(k)", "sched-stale-get"),
@@ -124,7 +128,11 @@ def _mc(ctx, cfg, guard=True):
             m = re.match(r"^<(\w+) line .*\((\d+ \d+ \d+ \d+)\)>: (\d+):(\d+)$", line.strip())
             if m:
                 last[(m.group(1), m.group(2))] = int(m.group(4))
-        zero = sorted(k for k, v in last.items() if v == 0)
+        src = open(os.path.join(SPEC, "RevCache.tla")).read().splitlines()
+        # disjuncts that exist only for the staleness clause are switched off in the cfgs whose bucket never changes (MaxUpd = 0)
+        off = ('"loadfin"', '"Inval"')
+        zero = sorted(k for k, v in last.items()
+                      if v == 0 and not any(o in src[int(k[1].split()[0]) - 1] for o in off))
         if zero:
             raise Inconclusive("vacuity: actions never taken in %s: %s" % (cfg, zero))
         ctx.cov.setdefault("action_coverage", {})[cfg] = "%d action disjuncts, all taken" % len(last)
@@ -224,6 +232,12 @@ def conc(ctx, tr):
     ctx.cov["distinct_nontrivial"] += ctx.cov["conc_nonempty_snapshots"]
     ctx.sample({"concurrent_run_config": _strip(rows[0]), "quiescent_snapshot": next((r["S"] for r in snaps if r["S"]["lru"]), None)})
     vp = validate(ctx, SPEC, "Trace_RevCache", "Trace_RevCache_PS.cfg", tr, timeout=3600)      # strict: no deviation is reachable in this environment
+    if vp.inv == "NoTornPeek":
+        # timing dependent (Peek reads the value without its lock): reported under a fixed key, then the whole trace is
+        # validated again without this one classification so that nothing else goes unjudged
+        _violation(ctx, "concurrent driver: %s" % TORN_PEEK_WHAT, vp, rows, key=TORN_PEEK_KEY)
+        ctx.cov["torn_peek_seen"] = True
+        vp = validate(ctx, SPEC, "Trace_RevCache", "Trace_RevCache_PS2.cfg", tr, timeout=3600)
     if vp.inv:
         _violation(ctx, "concurrent driver (quiescent snapshot)", vp, rows)
         return
